@@ -50,7 +50,8 @@ static std::string parse_flat(std::string const &schema, std::string const &conf
     size_t c = item.find(':');
     std::string kind = item.substr(0, c), key = unhex(item.substr(c + 1));
     std::string out = "-";
-    colvarparse::Parse_Mode const m = colvarparse::parse_silent;
+    colvarparse::Parse_Mode m = colvarparse::parse_silent;
+    if (kind[kind.size() - 1] == '!') { m = colvarparse::parse_required; kind.erase(kind.size() - 1); }
     if (kind == "R") {
       double v = 0.0;
       if (p.get_keyval(conf, key.c_str(), v, 0.0, m)) out = vs_hex(v);
@@ -70,6 +71,30 @@ static std::string parse_flat(std::string const &schema, std::string const &conf
         out = "[";
         for (size_t i = 0; i < v.size(); i++) out += (i ? ";" : "") + vs_hex(v[i]);
         out += "]";
+      }
+    } else if (kind[0] == 'T') {
+      size_t n = atoi(kind.c_str() + 1);
+      std::vector<double> comp;
+      bool found = false;
+      if (n == 3) {
+        cvm::rvector v(0.0, 0.0, 0.0);
+        found = p.get_keyval(conf, key.c_str(), v, cvm::rvector(0.0, 0.0, 0.0), m);
+        comp = {v.x, v.y, v.z};
+      } else if (n == 4) {
+        cvm::quaternion q(1.0, 0.0, 0.0, 0.0);
+        found = p.get_keyval(conf, key.c_str(), q, cvm::quaternion(1.0, 0.0, 0.0, 0.0), m);
+        comp = {q.q0, q.q1, q.q2, q.q3};
+      } else {
+        colvarvalue v(colvarvalue::type_vector);
+        v.vector1d_value.resize(n);
+        colvarvalue def(v);
+        found = p.get_keyval(conf, key.c_str(), v, def, m);
+        for (size_t i = 0; i < v.vector1d_value.size(); i++) comp.push_back(v.vector1d_value[i]);
+      }
+      if (found) {
+        out = "(";
+        for (size_t i = 0; i < comp.size(); i++) out += (i ? ";" : "") + vs_hex(comp[i]);
+        out += ")";
       }
     } else if (kind == "K") {
       // as colvarmodule::parse_colvars / parse_biases_type do
@@ -92,6 +117,63 @@ static std::string parse_flat(std::string const &schema, std::string const &conf
   for (auto &v : vals) r += " " + v;
   if (vals.empty()) r += " ";
   return r;
+}
+
+// nested client: items separated by ';', a block is G:<keyhex>[<items>]; every level is a parser object of its own
+struct NItem { std::string kind, key; std::vector<NItem> sub; };
+
+static std::vector<NItem> parse_nested_schema(std::string const &s, size_t &pos)
+{
+  std::vector<NItem> items;
+  while (pos < s.size() && s[pos] != ']') {
+    NItem it;
+    size_t c = s.find(':', pos);
+    it.kind = s.substr(pos, c - pos);
+    pos = c + 1;
+    size_t e = s.find_first_of(";[]", pos);
+    if (e == std::string::npos) e = s.size();
+    it.key = unhex(s.substr(pos, e - pos));
+    pos = e;
+    if (it.kind == "G") {
+      pos++;  // '['
+      it.sub = parse_nested_schema(s, pos);
+      pos++;  // ']'
+    }
+    items.push_back(it);
+    if (pos < s.size() && s[pos] == ';') pos++; else break;
+  }
+  return items;
+}
+
+// true = accepted
+static bool nested_level(std::vector<NItem> const &items, std::string const &conf)
+{
+  P p;
+  colvarparse::Parse_Mode const m = colvarparse::parse_silent;
+  bool ok = true;
+  for (NItem const &it : items) {
+    if (it.kind == "G") {
+      std::string data; size_t pos = 0;
+      std::vector<std::string> blocks;
+      while (p.key_lookup(conf, it.key.c_str(), &data, &pos)) { blocks.push_back(data); data.clear(); }
+      for (std::string const &b : blocks) {
+        if (!b.size()) { ok = false; continue; }
+        if (!nested_level(it.sub, b)) ok = false;
+      }
+    } else if (it.kind == "R") { double v = 0.0; p.get_keyval(conf, it.key.c_str(), v, 0.0, m); }
+    else if (it.kind == "I") { int v = 0; p.get_keyval(conf, it.key.c_str(), v, 0, m); }
+    else if (it.kind == "B") { bool v = false; p.get_keyval(conf, it.key.c_str(), v, false, m); }
+    else if (it.kind == "S") { std::string v; p.get_keyval(conf, it.key.c_str(), v, std::string(""), m); }
+    else if (it.kind == "V" || it.kind[0] == 'N') {
+      size_t n = (it.kind[0] == 'N') ? atoi(it.kind.c_str() + 1) : 0;
+      std::vector<double> v(n, 0.0), def(n, 0.0);
+      p.get_keyval(conf, it.key.c_str(), v, def, m);
+    }
+  }
+  if (cvm::get_error() != COLVARS_OK) ok = false;
+  std::string c2(conf);
+  if (p.check_keywords(c2, "nested") != COLVARS_OK) ok = false;
+  return ok;
 }
 
 static void unit_loop()
@@ -136,6 +218,13 @@ static void unit_loop()
         std::string conf = read_config_lines(p, unhex(a[2]));
         if (colvarparse::check_braces(conf, 0) != COLVARS_OK) out = "reject";
         else out = parse_flat(a[1], conf);
+      } else if (cmd == "NP") {
+        P p;
+        std::string conf = read_config_lines(p, unhex(a[2]));
+        size_t pos = 0;
+        std::vector<NItem> items = (a[1] == "-") ? std::vector<NItem>() : parse_nested_schema(a[1], pos);
+        if (colvarparse::check_braces(conf, 0) != COLVARS_OK) out = "reject";
+        else out = nested_level(items, conf) ? "accept" : "reject";
       } else if (cmd == "SS") {
         std::vector<std::string> dest;
         colvarparse::split_string(unhex(a[0]), unhex(a[1]), dest);
